@@ -117,6 +117,21 @@ def check_backends(inp):
             for x, y in zip(g[2], r_want):
               if not close(x, y):
                 return f'{be} backend ({dev} devices, counts {counts}): a step result of {g[0]!r} differs from the fold: {tolist(x)} vs {tolist(y)}'
+    if inp.get('reuse'):
+      # the SAME for_each_client function called again with the SAME shared container whose content the caller has replaced in
+      # between: the result is the fold over the values passed to THIS call
+      with fec.for_each_client_backend(be):
+        f = fec.for_each_client(init, lambda s, b: step(s, b)[0], final)
+        box = {'w': shared['w']}
+        list(f(box, clients))
+        box['w'] = shared['w'] * 3.0 + 1.0
+        got2 = list(f(box, clients))
+      want2 = {cid: o for cid, o, _ in reference(box, clients, nan_pad)}
+      for g in got2:
+        if not close(g[1], want2[g[0]]):
+          return (f'{be} backend ({dev} devices): second call of the same for_each_client function with the same shared container '
+                  f'(content replaced in between): output of {g[0]!r} is {tolist(g[1])}, the fold over the current shared values '
+                  f'gives {tolist(want2[g[0]])}')
     try:
       after = (tolist(shared), [tolist((b, ci)) for _, b, ci in clients])
     except Exception as e:  # pylint: disable=broad-except
@@ -129,6 +144,7 @@ def sweep_backends(tier, seed):
   shapes = [[], [0], [2], [2, 0, 1], [1, 3, 2], [0, 2], [1, 1, 1, 1], [0, 0], [3, 1, 0, 2, 1]]
   for counts in shapes:
     yield dict(devices=DEV, counts=counts, nan_pad=True, seed=seed)
+  yield dict(devices=DEV, counts=[2, 1, 3], nan_pad=True, seed=seed, reuse=True)
   devs = (1, 2, 8) if tier != 'thorough' else (1, 2, 4, 5, 6, 7, 8)
   for d in devs:
     yield dict(devices=d, counts=[3, 1, 0, 2, 1], nan_pad=True, seed=seed)
